@@ -16,4 +16,5 @@ pub mod eng_fault;
 pub mod eng_conf;
 pub mod eng_cli;
 pub mod eng_keys;
+pub mod eng_capi;
 pub mod alloc;
